@@ -22,6 +22,24 @@ for out in sorted(glob.glob('/tmp/seed_C*_out')):
                 meta['check_with'] = old['check_with']
         meta['checks'] = RESULTS.get(sid, meta.get('checks', {}))
         json.dump(meta, open(os.path.join(dst, 'meta.json'), 'w'), indent=1)
+# batch 7: one agent per source file (/tmp/seed_F<k>_out/mut7<x>); the property is the first one named in meta.json
+import re
+for out in sorted(glob.glob('/tmp/seed_F*_out')):
+    fk = os.path.basename(out)[5:7]
+    for m in sorted(glob.glob(out + '/mut*')):
+        if not os.path.exists(m + '/patch.diff'):
+            continue
+        meta = json.load(open(m + '/meta.json'))
+        prop = re.findall(r'C\d\d', meta.get('property', ''))[0]
+        sid = '%s-mut7%s%s' % (prop, fk, os.path.basename(m)[-1])
+        dst = os.path.join(VERIF, 'seeded', sid)
+        os.makedirs(dst, exist_ok=True)
+        for f in ('patch.diff', 'demo.py'):
+            shutil.copy(os.path.join(m, f), os.path.join(dst, f))
+        meta['id'] = sid
+        meta.setdefault('confirmed', 'applied alone in a scratch worktree of /repo HEAD: 39 tests pass; demo.py exits 0 on the clean tree and 1 with the change (harness/seedtest2.sh)')
+        meta['checks'] = RESULTS.get(sid, meta.get('checks', {}))
+        json.dump(meta, open(os.path.join(dst, 'meta.json'), 'w'), indent=1)
 rows = []
 for d in sorted(glob.glob(os.path.join(VERIF, 'seeded', 'C*-mut*'))):
     meta = json.load(open(d + '/meta.json'))
